@@ -68,6 +68,7 @@ type concDrv struct {
 	tmu  sync.Mutex // orders trace events
 	cp   *concPlan
 	tols map[int]bool
+	thetas []int // every threshold a settheta of the current run installs
 }
 
 func goid() int64 {
@@ -184,6 +185,8 @@ func (d *concDrv) assignVers(ops []concOp) {
 			}
 		case "settol":
 			d.tols[o.Tol] = true
+		case "settheta":
+			d.thetas = append(d.thetas, o.Theta)
 		}
 	}
 }
@@ -299,12 +302,29 @@ func (d *concDrv) exec(tid int, o concOp) {
 
 func (d *concDrv) tableAll() []map[string]any {
 	out := []map[string]any{}
+	// thresholds in force during the run (the model compares quantised confidences with them)
+	thetas := map[int]bool{d.cp.Theta: true}
+	for _, th := range d.thetas {
+		thetas[th] = true
+	}
 	for qi, q := range d.cp.Queries {
 		topo := d.queryTopo(q)
 		for tol := range d.tols {
 			for v, vi := range d.vers {
 				c := detection.MatchSignature(topo, "fn", vi.sig, float64(tol)/entUnit).Confidence
 				cq, _ := quantConf(c)
+				// a confidence that is not exactly a threshold but rounds onto it (0.7999999999999999 vs
+				// 0.8): keep the order the real float comparison c >= threshold sees
+				for th := range thetas {
+					thf := float64(th) / 1e9
+					if cq == th && c != thf {
+						if c < thf {
+							cq = th - 1
+						} else {
+							cq = th + 1
+						}
+					}
+				}
 				out = append(out, map[string]any{"q": qi + 1, "ver": v, "tol": tol, "conf": cq})
 			}
 		}
@@ -317,6 +337,7 @@ func (d *concDrv) run(ri int, r concRun) error {
 	d.verBase = (ri * 5) % 44
 	d.theta, d.tol = d.cp.Theta, d.cp.Tol
 	d.tols = map[int]bool{d.tol: true}
+	d.thetas = nil
 	base, err := os.MkdirTemp("", "vfconc")
 	if err != nil {
 		return err
